@@ -333,6 +333,92 @@ func RogueServerConn(proto string, chain [][]byte, keyPkcs8 []byte, holds, reque
 	return client
 }
 
+// RespondingServerConn is a TLS server whose answer is computed from the client's hello: respond(offered ALPN
+// values) returns the protocol to select, the certificate chain to present and whether to go on at all. It signs
+// with keyPkcs8 if it holds the leaf key (with an unrelated key otherwise) and requests a client certificate.
+// Returns the client end. Under the engine the call is intercepted: the model runs the peer's Respond field.
+func RespondingServerConn(respond func([]string) (string, [][]byte, bool), keyPkcs8 []byte, holds bool, caSubjects [][]byte) net.Conn {
+	server, client := connPair()
+	go func() {
+		var key any = edKey(7)
+		if holds {
+			k, err := x509.ParsePKCS8PrivateKey(keyPkcs8)
+			if err != nil {
+				panic(err)
+			}
+			key = k
+		}
+		cfg := &tls.Config{MinVersion: tls.VersionTLS13, GetConfigForClient: func(hello *tls.ClientHelloInfo) (*tls.Config, error) {
+			proto, chain, ok := respond(hello.SupportedProtos)
+			if !ok {
+				return nil, errors.New("vf: the responding server refuses the hello")
+			}
+			// announce the given CA subjects in the certificate request: a pool of stand-in certificates with those subjects
+			pool := x509.NewCertPool()
+			for _, subj := range caSubjects {
+				pool.AddCert(&x509.Certificate{Raw: subj, RawSubject: subj})
+			}
+			return &tls.Config{MinVersion: tls.VersionTLS13, NextProtos: []string{proto}, ClientAuth: tls.RequireAnyClientCert, ClientCAs: pool,
+				Certificates: []tls.Certificate{{Certificate: chain, PrivateKey: key}}}, nil
+		}}
+		ts := tls.Server(server, cfg)
+		_ = server.SetDeadline(time.Now().Add(5 * time.Second))
+		_ = ts.Handshake()
+		buf := make([]byte, 1)
+		_ = server.SetReadDeadline(time.Now().Add(300 * time.Millisecond))
+		_, _ = ts.Read(buf)
+		_ = server.Close()
+	}()
+	return client
+}
+
+// DialScript makes the given peers answer the successive outgoing connections of the code under test: it returns
+// the address of a loopback listener that splices the i-th accepted connection onto conns[i] (then stops
+// accepting, so a further dial is refused). Under the engine the call is intercepted: (*net.Dialer).DialContext
+// hands the peers out directly.
+func DialScript(conns ...net.Conn) string {
+	ln, err := net.Listen("tcp", "127.0.0.1:0")
+	if err != nil {
+		panic(err)
+	}
+	go func() {
+		defer ln.Close()
+		for _, peer := range conns {
+			_ = ln.(*net.TCPListener).SetDeadline(time.Now().Add(10 * time.Second))
+			c, err := ln.Accept()
+			if err != nil {
+				return
+			}
+			go splice(c, peer)
+		}
+	}()
+	return ln.Addr().String()
+}
+
+func splice(a, b net.Conn) {
+	done := make(chan struct{}, 2)
+	cp := func(dst, src net.Conn) {
+		buf := make([]byte, 32*1024)
+		for {
+			n, err := src.Read(buf)
+			if n > 0 {
+				if _, werr := dst.Write(buf[:n]); werr != nil {
+					break
+				}
+			}
+			if err != nil {
+				break
+			}
+		}
+		done <- struct{}{}
+	}
+	go cp(a, b)
+	go cp(b, a)
+	<-done
+	_ = a.Close()
+	_ = b.Close()
+}
+
 // ConnPair exposes the buffered duplex connection pair to harnesses that wire a real client to a real server.
 func ConnPair() (server, client net.Conn) { return connPair() }
 
